@@ -4,7 +4,7 @@
 cd /verif
 if [ $# -gt 0 ]; then seeds="$@"; else seeds=$(ls seeded); fi
 for s in $seeds; do
-  own=${s%%_*}
+  own=$(echo $s | cut -c1-3)
   extra=$(/venv/bin/python -c "
 import json,sys
 m=json.load(open('seeded/$s/meta.json')); print(' '.join(p for p in m.get('detected_by',[]) if p!='$own'))" 2>/dev/null)
